@@ -1,5 +1,6 @@
 import LoguruModel.FileSink.OrderLemmas
 import LoguruModel.FileSink.UsableLemmas
+import LoguruModel.FileSink.CompLemmas
 /-!
 C08 – file sink loses nothing across rotation / compression / retention, even under injected faults.
 Only property theorems and their non-vacuity examples.  Every statement quantifies over ALL
@@ -42,6 +43,40 @@ theorem order_preserved (cfg : Cfg) (ops : List Op) (fs : FS) (faults : List Boo
 theorem rename_target_fresh (fs : FS) (cand : Nat → Name) (r : Name) (h : genRename fs cand = some r) :
     fs.has r = false ∧ ∃ c, Gen.renameFirstCounter ≤ c ∧ r = cand c :=
   renameLoop_fresh fs cand _ _ r h
+
+/-- **probe_complete_fresh**: the freshness of the rename target only needs the existence test of the
+counter loop to be COMPLETE (it may say "taken" too often, never too rarely).  Names are abstract here: the
+statement covers every path, whatever characters it contains (glob metacharacters included). -/
+theorem probe_complete_fresh (fs : FS) (taken : Name → Bool) (hcomplete : ∀ n, fs.has n = true → taken n = true)
+    (cand : Nat → Name) (fuel c : Nat) (r : Name) (h : renameLoopP taken cand fuel c = some r) :
+    fs.has r = false := by
+  have := renameLoopP_not_taken taken cand fuel c r h
+  cases hr : fs.has r with
+  | false => rfl
+  | true => rw [hcomplete r hr] at this; cases this
+
+/-- the code's loop is the instance `taken = os.path.exists` (the shape of `generate_rename_path` is pinned by
+the extractor) -/
+theorem code_probe_is_exists (fs : FS) (cand : Nat → Name) :
+    genRename fs cand = renameLoopP fs.has cand (fs.length + 1) Gen.renameFirstCounter :=
+  renameLoop_eq fs cand _ _
+
+/-- **probe_incomplete_refuted**: ANY existence test that misses the first candidate although it exists makes
+the loop return an existing name – the following `os.rename` then overwrites it.  (This is the shape of a scan
+of the taken names by an unescaped glob pattern in a directory whose name contains `[…]`.) -/
+theorem probe_incomplete_refuted (fs : FS) (taken : Name → Bool) (cand : Nat → Name) (fuel c : Nat)
+    (hex : fs.has (cand c) = true) (hmiss : taken (cand c) = false) :
+    renameLoopP taken cand (fuel + 1) c = some (cand c) ∧ fs.has (cand c) = true := by
+  simp [renameLoopP, hmiss, hex]
+
+/-- witness for the refutation: with a probe that sees nothing, the rotated file of an earlier run is replaced
+and its content is gone -/
+theorem probe_incomplete_witness :
+    let old := Name.ren (.base 0) 5 1
+    let w : W := { fs := [(.base 0, .file [1]), (old, .file [7])], faults := [] }
+    renameLoopP (fun _ => false) (fun c => Name.ren (.base 0) 5 c) 3 1 = some old ∧
+    (rename (.base 0) old w).2.clobbered = [old] ∧
+    (rename (.base 0) old w).2.fs.get old = some (.file [1]) := by decide +kernel
 
 theorem del_length_lt (fs : FS) (n : Name) (h : fs.has n = true) : (fs.del n).length < fs.length := by
   induction fs with
